@@ -3,6 +3,7 @@
 Proof: coq/Properties/C10.v about Model/Keepalive.v (every event schedule, every K = 2h).
 Tie: the extracted scheduler ka_sim and the real APIConnection (virtual-time loop) run on the same arrival schedules;
 ping timestamps and the time of death must agree, and both must equal an independently written closed-form oracle."""
+from vlib.privnames import priv, has_priv
 import asyncio
 import json
 import random
@@ -60,12 +61,12 @@ def run_impl(h, arrivals, horizon, kinds, sends=(), crumbs=()):
         stops = []
         with net.patched():
             cli, tr = await simnet.connected_client(loop, net, keepalive=K, on_stop=None)
-            conn = cli._connection
+            conn = priv(cli, "_connection")
             t0 = loop.time()
             orig = conn.on_stop
 
             def on_stop(expected):
-                stops.append((loop.time() - t0, expected, type(conn._fatal_exception).__name__))
+                stops.append((loop.time() - t0, expected, type(priv(conn, "_fatal_exception")).__name__))
                 if orig is not None:
                     orig(expected)
             conn.on_stop = on_stop
@@ -91,7 +92,7 @@ def run_impl(h, arrivals, horizon, kinds, sends=(), crumbs=()):
             for t, expected, fatal in stops:
                 ev.append(("X" if (not expected and fatal == "PingFailedAPIError") else f"STOP({expected},{fatal})", round(t / UNIT)))
             if not stops:
-                cli._connection.force_disconnect() if cli._connection else None
+                priv(cli, "_connection").force_disconnect() if priv(cli, "_connection") else None
                 await simnet.drain(loop)
             return sorted(ev, key=lambda e: (e[1], e[0] == "X"))
     return simnet.run(go)
